@@ -1,4 +1,5 @@
 import Knut.Proofs.PrintCommands
+import Knut.Proofs.PrintSound
 import Knut.Properties.C09Text
 /-!
 # C09 (command level) — `knut print` output is accepted, printed again unchanged, and reports the same
@@ -10,8 +11,13 @@ print; `BalanceCmd.run`: `knut balance` with any flags):
 * `C09_print_accepted` – the printed text of a printable journal loads, and the checker's verdict on the reloaded
   journal is the verdict on the original (C05 machinery: the reloaded journal has the same days, transactions in sort
   order);
-* `C09_print_fixpoint`, `C09_print_idempotent` – `knut print` of the printed text of an accepted printable journal is
-  that text; `print` is idempotent on its own output, byte for byte (`C09_print_idempotent_bytes`);
+* `C09_print_fixpoint` – `knut print` of the printed text of an accepted printable journal is that text;
+* `C09_loaded_printable` – every directive the loader returns, from any text, is printable (`Proofs/PrintSound.lean`: the
+  parser's soundness gives field tokens of the right lexical classes, the elaboration's checks and
+  `transaction.Create`, `@accrue` expansion included, give the rest), hence
+  `C09_print_idempotent` – for EVERY input text: if `knut print` succeeds on it, `knut print` on the output gives the output
+  again, byte for byte (`C09_print_idempotent_bytes`); `C09_file_reports_equal` – and check verdict and every balance report
+  of the printed file equal those of the input file;
 * `C09_reports_equal` – every balance report (any flag vector, valued or not, no restriction on the price directives:
   `print` keeps their order within a day) of the reloaded journal equals the one of the original.
 
@@ -47,28 +53,56 @@ theorem C09_print_rejected (path : String) (j : List Day) (hp : PrintableJournal
   | error e => rfl
   | ok st => rw [hc] at h1; cases h1
 
-/-- **`print` is idempotent on its own output**: if `knut print` succeeds on a text whose directives are printable, then
-`knut print` on the output gives the output again -/
-theorem C09_print_idempotent (path path' : String) (text : List UInt8) (ds : List Directive)
-    (hl : loadText path text = .ok ds) (hp : ∀ x ∈ ds, PrintableDir x) (out : String)
+/-- **every directive the loader returns, from ANY text, is printable**: the hypothesis `PrintableDir` of the theorems
+here is what parser, elaboration (`time.Parse`, `decimal.NewFromString`, the account registry) and `transaction.Create`
+(with `@accrue` expansion) guarantee -/
+theorem C09_loaded_printable (path : String) (text : List UInt8) (ds : List Directive) (h : loadText path text = .ok ds) :
+    ∀ x ∈ ds, PrintableDir x := loadText_printable path text ds h
+
+/-- hence the journal built from any loaded text is a printable journal -/
+theorem C09_loaded_journal_printable (path : String) (text : List UInt8) (ds : List Directive)
+    (h : loadText path text = .ok ds) : PrintableJournal (Builder.ofList ds).build :=
+  printable_built ds (loadText_printable path text ds h)
+
+/-- **`print` is idempotent on its own output, for every input**: whenever `knut print` succeeds on a text (any bytes),
+`knut print` on its output gives that output again -/
+theorem C09_print_idempotent (path path' : String) (text : List UInt8) (out : String)
     (h : printFile path text = .ok out) : printFile path' (strBytes out) = .ok out := by
   unfold printFile at h
-  rw [hl] at h
-  simp only at h
-  cases hc : Check.run (Builder.ofList ds).build with
-  | error e => rw [hc] at h; cases h
-  | ok st =>
-    rw [hc] at h
-    simp only [CmdOutcome.ok.injEq] at h
-    subst h
-    exact C09_print_fixpoint path' _ (printable_built ds hp) (by rw [hc]; rfl)
+  cases hl : loadText path text with
+  | error => rw [hl] at h; cases h
+  | panic s => rw [hl] at h; cases h
+  | ok ds =>
+    rw [hl] at h
+    simp only at h
+    cases hc : Check.run (Builder.ofList ds).build with
+    | error e => rw [hc] at h; cases h
+    | ok st =>
+      rw [hc] at h
+      simp only [CmdOutcome.ok.injEq] at h
+      subst h
+      exact C09_print_fixpoint path' _ (printable_built ds (loadText_printable path text ds hl)) (by rw [hc]; rfl)
 
 /-- the same as byte strings: the second run writes the bytes of the first -/
-theorem C09_print_idempotent_bytes (path path' : String) (text : List UInt8) (ds : List Directive)
-    (hl : loadText path text = .ok ds) (hp : ∀ x ∈ ds, PrintableDir x) (out : String)
+theorem C09_print_idempotent_bytes (path path' : String) (text : List UInt8) (out : String)
     (h : printFile path text = .ok out) :
     ∃ out', printFile path' (strBytes out) = .ok out' ∧ strBytes out' = strBytes out :=
-  ⟨out, C09_print_idempotent path path' text ds hl hp out h, rfl⟩
+  ⟨out, C09_print_idempotent path path' text out h, rfl⟩
+
+/-- **reports of a file and of its printed form agree, for every input**: for any text that loads, the printed journal
+loads too, the checker gives the same verdict, and `knut balance` under every flag vector prints the same bytes (or fails
+alike) on both -/
+theorem C09_file_reports_equal (f : BalanceFlags) (path path' : String) (text : List UInt8) (ds0 : List Directive)
+    (h : loadText path text = .ok ds0) :
+    ∃ ds, loadText path' (strBytes (print (Builder.ofList ds0).build)) = .ok ds ∧
+      BalanceCmd.run f ds = BalanceCmd.run f ds0 ∧
+      (Check.run (Builder.ofList ds).build).isOk = (Check.run (Builder.ofList ds0).build).isOk := by
+  have hp := loadText_printable path text ds0 h
+  have hj := printable_built ds0 hp
+  refine ⟨printedDirs ds0, load_print path' _ hj.dirs, balance_printed f ds0 hp, ?_⟩
+  unfold printedDirs
+  rw [rebuild _ hj.shape]
+  exact check_normDays _
 
 /-- **every balance report of the reloaded journal equals the one of the original**: for every flag vector (periods,
 `--val`, `--close`, mappings, filters, …) `knut balance` prints the same bytes, or fails alike, on the directives
@@ -95,6 +129,10 @@ theorem exJournal_accepted : (Check.run exJournal).isOk = true := by decide +ker
 
 example : printFile "j" (strBytes (print exJournal)) = .ok (print exJournal) :=
   C09_print_fixpoint "j" exJournal exJournal_printable exJournal_accepted
+
+/-- the hypothesis of the unconditional idempotence theorem is satisfiable: `knut print` succeeds on this text -/
+example : printFile "k" (strBytes (print exJournal)) = .ok (print exJournal) :=
+  C09_print_idempotent "j" "k" _ _ (C09_print_fixpoint "j" exJournal exJournal_printable exJournal_accepted)
 
 /-- a monthly report valued in CHF with closing entries -/
 def exFlags : BalanceFlags := { to := 737500, interval := .monthly, valuation := some "CHF", close := true }
